@@ -318,6 +318,25 @@ func hostileAlphabet(p *scripted) []hostilePkt {
 	add("INIT/zero-tag", false, chunkBytes(wINIT, 0, wInitVal(0, 1<<20, 10, 10, 5)))
 	add("INIT/small-rwnd", false, chunkBytes(wINIT, 0, wInitVal(9, 100, 10, 10, 5)))
 	add("INIT/unknown-param-stop", false, chunkBytes(wINIT, 0, wInitVal(9, 1<<20, 10, 10, 5, wTLVBytes(0x0033, []byte{1, 2, 3, 4}, true))))
+	// the same INITs in a packet with verification tag 0 (the only kind that gets past the
+	// packet check), from the association's own ports
+	addTag0 := func(name string, chunks ...[]byte) {
+		w := wNewPacket(5000, 5000, 0)
+		for _, c := range chunks {
+			w.rawChunk(c)
+		}
+		out = append(out, hostilePkt{name: name, raw: w.bytes(true), ignore: false})
+	}
+	addTag0("INIT/vtag0", chunkBytes(wINIT, 0, wInitVal(0x99, 1<<20, 10, 10, 5, p.initParams()...)))
+	addTag0("INIT/vtag0/zero-tag", chunkBytes(wINIT, 0, wInitVal(0, 1<<20, 10, 10, 5)))
+	addTag0("INIT/vtag0/small-rwnd", chunkBytes(wINIT, 0, wInitVal(9, 100, 10, 10, 5)))
+	addTag0("INIT/vtag0/no-streams", chunkBytes(wINIT, 0, wInitVal(9, 1<<20, 0, 0, 5)))
+	// packets with port 0
+	for _, pp := range [][2]uint16{{0, 5000}, {5000, 0}} {
+		w := wNewPacket(pp[0], pp[1], p.aTag)
+		w.rawChunk(chunkBytes(wHEARTBEAT, 0, wTLVBytes(1, []byte("12345678"), true)))
+		out = append(out, hostilePkt{name: fmt.Sprintf("PORT0/%d-%d", pp[0], pp[1]), raw: w.bytes(true), ignore: true})
+	}
 	add("INIT-ACK", false, chunkBytes(wINITACK, 0, wInitVal(0x78, 1<<20, 10, 10, 6, wTLVBytes(7, []byte("other-cookie"), true))))
 	add("INIT-ACK/nocookie", false, chunkBytes(wINITACK, 0, wInitVal(0x78, 1<<20, 10, 10, 6)))
 	add("COOKIE-ECHO/wrong", false, chunkBytes(wCOOKIEECHO, 0, []byte("not-the-cookie")))
